@@ -19,6 +19,27 @@ pub fn clones(tag: u32) -> u32 {
 pub fn drop_at(tag: u32) -> u64 {
     DROP_AT[tag as usize].load(Relaxed)
 }
+static NEXT_BASE: AtomicU32 = AtomicU32::new(1);
+
+/// Reserves a block of `n` fresh tags (counters zeroed) and returns the first.
+/// Blocks are handed out round-robin over the table; only a handful of
+/// driver instances are alive at any time, so a live block is never reused.
+pub fn reserve(n: u32) -> u32 {
+    assert!((n as usize) < MAX_TAGS / 4);
+    loop {
+        let base = NEXT_BASE.fetch_add(n, Relaxed);
+        if (base as usize) + (n as usize) < MAX_TAGS && base != 0 {
+            for i in base..base + n {
+                DROPS[i as usize].store(0, Relaxed);
+                CLONES[i as usize].store(0, Relaxed);
+                DROP_AT[i as usize].store(0, Relaxed);
+            }
+            return base;
+        }
+        NEXT_BASE.store(1, Relaxed);
+    }
+}
+
 pub fn reset(upto: usize) {
     for i in 0..upto.min(MAX_TAGS) {
         DROPS[i].store(0, Relaxed);
